@@ -622,7 +622,9 @@ func (b *Browser) Get(u string) (*Hop, error) {
 		return nil, err
 	}
 	if b.XFF != "" && toGW {
-		req.Header.Set("X-Forwarded-For", b.XFF)
+		for _, line := range strings.Split(b.XFF, "\n") {
+			req.Header.Add("X-Forwarded-For", line)
+		}
 	}
 	for _, h := range b.extra {
 		req.Header.Set(h[0], h[1])
